@@ -60,6 +60,7 @@ type c07prog struct {
 	vars     map[string]any
 	signals  []string // delivered in this order, one whenever the run is quiescent with nothing to answer
 	timer    bool     // runs on the mock clock; the policy advances it when nothing else can happen
+	host     bool     // with timer: the timers run on the HOST clock (the engine's default), far deadlines, never advanced
 	results  map[string]map[string]int
 	thorough bool // only in the thorough tier
 	// errPending: the first request of this node is answered with an error and a handler channel on which
@@ -105,6 +106,29 @@ func c07programs() []c07prog {
 			c := g.Add("intermediateCatchEvent", "T1", "")
 			c.Defs = []eng.EventDef{{Kind: "timer", Sub: "duration", Name: "PT5S"}}
 			g.Wrap(g.Seq(eng.Frag{Entry: c, Exit: c}, g.Task("task", "A", "")))
+		}},
+		// timers on the host clock whose deadline is hours away at every cancellation point: whatever a pending
+		// timer owns (goroutines of pkg/timer AND of pkg/clock's host implementation) must go with the cancel
+		{name: "hosttimer", pts: 16, timer: true, host: true, build: func(g *eng.Graph) {
+			c := g.Add("intermediateCatchEvent", "T1", "")
+			c.Defs = []eng.EventDef{{Kind: "timer", Sub: "duration", Name: "PT2H"}}
+			g.Wrap(g.Seq(g.Task("task", "A", ""), eng.Frag{Entry: c, Exit: c}, g.Task("task", "B", "")))
+		}},
+		{name: "hostcycle", pts: 10, timer: true, host: true, build: func(g *eng.Graph) {
+			c := g.Add("intermediateCatchEvent", "T1", "")
+			c.Defs = []eng.EventDef{{Kind: "timer", Sub: "cycle", Name: "R3/PT3H"}}
+			g.Wrap(g.Seq(eng.Frag{Entry: c, Exit: c}, g.Task("task", "A", "")))
+		}},
+		{name: "hostbndtimer", pts: 14, timer: true, host: true, build: func(g *eng.Graph) {
+			a := g.Task("task", "A", "")
+			g.Wrap(a)
+			b := g.Add("boundaryEvent", "BE", "")
+			b.Attached, b.Interrupting = "A", false
+			b.Defs = []eng.EventDef{{Kind: "timer", Sub: "date", Name: "2099-01-01T00:00:00Z"}}
+			x := g.Add("task", "X", "")
+			e2 := g.Add("endEvent", "end2", "")
+			g.Connect(b, x, nil)
+			g.Connect(x, e2, nil)
 		}},
 		{name: "sub", pts: 33, build: func(g *eng.Graph) {
 			sub := g.SubBegin("")
@@ -426,9 +450,13 @@ func c07run(out *rec.Out, c c07case, rng *rec.Rng, stats map[string]int) {
 	var clk *clock.Mock
 	var tcancel context.CancelFunc = func() {}
 	if p.timer {
-		clk = clock.NewMockAt(time.Date(2024, 1, 1, 0, 0, 0, 0, time.UTC))
 		var tctx context.Context
-		tctx, tcancel = context.WithCancel(clock.ToContext(context.Background(), clk))
+		if p.host {
+			tctx, tcancel = context.WithCancel(context.Background())
+		} else {
+			clk = clock.NewMockAt(time.Date(2024, 1, 1, 0, 0, 0, 0, time.UTC))
+			tctx, tcancel = context.WithCancel(clock.ToContext(context.Background(), clk))
+		}
 		fan := event.NewFanOut()
 		tr := tracing.NewTracer(tctx)
 		opts = append(opts, bpmn.WithTracer(tr),
@@ -548,7 +576,7 @@ func c07run(out *rec.Out, c c07case, rng *rec.Rng, stats map[string]int) {
 			sigs = sigs[1:]
 			continue
 		}
-		if p.timer && !advanced {
+		if p.timer && !p.host && !advanced {
 			advanced = true
 			in.Op("advance 5")
 			clk.Add(5 * time.Second)
